@@ -48,6 +48,20 @@ def prepare(rep, prop, need_model=True, need_harness=True):
     return proof, breaks
 
 
+def source_changed():
+    """True when /repo's src/ differs from the tree the streams were tuned on (tools/src_pin.json: commit id and content
+    hash).  A changed tree is not a violation; it only makes the streams search harder (the `broken` intensity)."""
+    import hashlib, glob as g
+    try:
+        pin = json.load(open(os.path.join(VERIF, "tools", "src_pin.json")))
+        h = hashlib.sha256()
+        for f in sorted(g.glob(os.path.join(REPO, "src", "*.rs"))) + [os.path.join(REPO, "Cargo.toml")]:
+            h.update(os.path.basename(f).encode()); h.update(open(f, "rb").read())
+        return h.hexdigest() != pin["src_sha256"]
+    except Exception:
+        return True
+
+
 def main():
     ap = argparse.ArgumentParser()
     ap.add_argument("prop")
@@ -69,7 +83,9 @@ def main():
         model_ok = os.path.exists(DRIVER)
         info = {}
         if harness_ok and model_ok:
-            info = fn(rep, a.tier, Rng(seed), broken=bool(breaks)) or {}
+            changed = source_changed()
+            info = fn(rep, a.tier, Rng(seed), broken=bool(breaks) or changed) or {}
+            rep.cov["source_differs_from_pinned_tree"] = changed
         known_keys = {k[1] for k in known_findings()[0] if k[0] == prop}
         for b in breaks:
             # a break with no concrete failing input found by the streams/search above (a listed known finding is
